@@ -166,18 +166,20 @@ func (c *AttackCase) specTrusted(s *h.SignSpec) bool {
 	if s == nil {
 		return false
 	}
+	// A signature made with key K can be honoured whenever the store holds a currently valid certificate over K:
+	// KeyInfo lies outside the signed bytes, so anyone may replace the certificate the IdP embedded by another
+	// certificate of the SAME key (or drop it when the store has a single entry). What the IdP signed with a key
+	// the store vouches for stays IdP-signed, whatever certificate accompanies it.
 	now := c.SP.Now()
-	var cert *h.CertRef
-	if s.Embed != nil {
-		cert = s.Embed
-	} else if len(c.SP.Store) == 1 {
-		cert = &c.SP.Store[0]
+	for _, cert := range c.SP.Store {
+		if cert.Key != s.Signer.Key {
+			continue
+		}
+		if x := cert.X509(); !now.Before(x.NotBefore) && !now.After(x.NotAfter) {
+			return true
+		}
 	}
-	if cert == nil || cert.Key != s.Signer.Key || !inStore(c.SP.Store, *cert) {
-		return false
-	}
-	x := cert.X509()
-	return !now.Before(x.NotBefore) && !now.After(x.NotAfter)
+	return false
 }
 
 type provenance struct {
